@@ -45,6 +45,13 @@ class FresnelPropagator(AgnosticOpticalElement):
             raise ValueError('The input grid must be a regular, Cartesian grid.')
 
         k = 2 * np.pi / wavelength * self.evaluate_parameter(self.refractive_index, input_grid, output_grid, wavelength)
+
+        # In an absorbing medium (complex refractive index) the wave decays away from the input
+        # plane in either direction, so that propagation by -z is the adjoint of propagation by +z
+        # (as the AngularSpectrumPropagator does for its complex k_z).
+        if self.distance < 0:
+            k = np.conj(k)
+
         L_max = np.max(input_grid.dims * input_grid.delta)
 
         if np.any(input_grid.delta < wavelength * abs(self.distance) / L_max):
